@@ -541,6 +541,20 @@ func runC13(ctx *core.Ctx) {
 		pattern, ts := c13GenLong(r, i)
 		c13LikeCase(ctx, core.CaseRef{Stream: "c13long", Index: i}, site, "LIKE", pattern, ts, false)
 	})
+	// letter case: a pattern and its other-case twin are run one after the other in the same process (every
+	// character other than % and _ matches only itself, whatever text-keyed caches the engine keeps)
+	casePairs := [][2]string{{"ab%", "AB%"}, {"%a.b", "%A.B"}, {"a_b%", "A_B%"}, {"%ab%", "%AB%"}, {"kq%", "KQ%"}, {"%w.v", "%W.V"}, {"p_r%t", "P_R%T"}, {"Ab", "aB"}}
+	caseTexts := []string{"abz", "ABz", "Abz", "xa.b", "xA.B", "a_bq", "A_Bq", "axb", "AXB", "zabz", "zABz", "kqz", "KQz", "w.v", "W.V", "part", "PART", "pArt", "Ab", "aB", "ab", "AB", ""}
+	run("c13case", len(casePairs)*len(c13SiteNames)*2, func(i int, r *rand.Rand) {
+		site := c13SiteNames[i%len(c13SiteNames)]
+		pair := casePairs[(i/len(c13SiteNames))%len(casePairs)]
+		first, second := pair[0], pair[1]
+		if i >= len(casePairs)*len(c13SiteNames) {
+			first, second = second, first
+		}
+		c13LikeCase(ctx, core.CaseRef{Stream: "c13case", Index: i}, site, "LIKE", first, caseTexts, false)
+		c13LikeCase(ctx, core.CaseRef{Stream: "c13case", Index: i}, site, "LIKE", second, caseTexts, false)
+	})
 	run("c13null", ctx.N(3, 40)*len(c13NullOperands)*2*len(c13SiteNames), func(i int, r *rand.Rand) {
 		c13NullCase(ctx, core.CaseRef{Stream: "c13null", Index: i}, r)
 	})
